@@ -56,6 +56,57 @@ func matcherList(ms []model.Matcher) string {
 	return "[" + strings.Join(q, ", ") + "]"
 }
 
+// InhibitRuleYAML renders one list item of inhibit_rules. A rule marked Legacy writes its '=' matchers
+// into the deprecated source_match / target_match maps and its '=~' matchers into source_match_re /
+// target_match_re (one per label name; the rest stays in *_matchers).
+func InhibitRuleYAML(r model.InhibitRule) string {
+	var b strings.Builder
+	side := func(name string, ms []model.Matcher) {
+		var rest []model.Matcher
+		eq, re := map[string]string{}, map[string]string{}
+		for _, m := range ms {
+			switch {
+			case r.Legacy && m.Op == "=" && eq[m.Name] == "" && m.Value != "":
+				eq[m.Name] = m.Value
+			case r.Legacy && m.Op == "=~" && re[m.Name] == "" && m.Value != "":
+				re[m.Name] = m.Value
+			default:
+				rest = append(rest, m)
+			}
+		}
+		for _, kv := range []struct {
+			key string
+			m   map[string]string
+		}{{name + "_match", eq}, {name + "_match_re", re}} {
+			if len(kv.m) == 0 {
+				continue
+			}
+			var ks []string
+			for k := range kv.m {
+				ks = append(ks, k)
+			}
+			sort.Strings(ks)
+			fmt.Fprintf(&b, "    %s:\n", kv.key)
+			for _, k := range ks {
+				fmt.Fprintf(&b, "      %s: '%s'\n", k, strings.ReplaceAll(kv.m[k], "'", "''"))
+			}
+		}
+		if len(rest) > 0 || (len(eq) == 0 && len(re) == 0) {
+			fmt.Fprintf(&b, "    %s_matchers: %s\n", name, matcherList(rest))
+		}
+	}
+	side("source", r.Source)
+	side("target", r.Target)
+	if r.Name != "" {
+		fmt.Fprintf(&b, "    name: %s\n", r.Name)
+	}
+	if len(r.Equal) > 0 {
+		fmt.Fprintf(&b, "    equal: [%s]\n", strings.Join(r.Equal, ", "))
+	}
+	out := b.String()
+	return "  - " + strings.TrimPrefix(out, "    ")
+}
+
 // YAML renders the configuration file.
 func (c *Config) YAML() string {
 	var b strings.Builder
@@ -82,13 +133,7 @@ func (c *Config) YAML() string {
 	if len(c.Inhibit) > 0 {
 		b.WriteString("inhibit_rules:\n")
 		for _, r := range c.Inhibit {
-			fmt.Fprintf(&b, "  - source_matchers: %s\n    target_matchers: %s\n", matcherList(r.Source), matcherList(r.Target))
-			if r.Name != "" {
-				fmt.Fprintf(&b, "    name: %s\n", r.Name)
-			}
-			if len(r.Equal) > 0 {
-				fmt.Fprintf(&b, "    equal: [%s]\n", strings.Join(r.Equal, ", "))
-			}
+			b.WriteString(InhibitRuleYAML(r))
 		}
 	}
 	if len(c.Intervals) > 0 {
